@@ -7,7 +7,7 @@
    ids are unique within a line and below the counter. *)
 From Coq Require Import ZArith NArith List Bool.
 From RecordUpdate Require Import RecordUpdate.
-From SL Require Import PyInt KeyPattern LoopSem ScreenSem Prompt ScreenOut gen.Translated proofs.TranslatedEq.
+From SL Require Import PyInt KeyPattern LoopSem QueueSources ScreenSem Prompt ScreenOut gen.Translated proofs.TranslatedEq.
 Import ListNotations.
 
 Theorem T_process_input_table : forall rv, t_process_input rv = action_of rv.
@@ -137,6 +137,19 @@ Theorem T_eq_contains_source : forall q src, t_eq_contains_source q src = t_ok (
 Proof. exact eq_contains_source_eq. Qed.
 Theorem T_eq_add_source : forall q o, t_eq_add_source q o = t_ok (q_add_source q o).
 Proof. exact eq_add_source_eq. Qed.
+(* EventQueue.remove_source: it changes the set of sources and nothing else — the pending signals, and therefore the
+   order in which they will be dispatched (C01), are untouched *)
+Theorem T_eq_remove_source : forall q o, t_eq_remove_source q o = q_remove_source q o.
+Proof. exact eq_remove_source_eq. Qed.
+Theorem T_eq_remove_source_keeps_pending : forall q o q',
+  q_remove_source q o = Some q' -> eq_entries q' = eq_entries q /\ eq_counter q' = eq_counter q.
+Proof. exact eq_remove_source_keeps_pending. Qed.
+Theorem T_eq_remove_source_removes : forall q o q',
+  q_remove_source q o = Some q' ->
+  q_contains_source q' (Some o) = false /\ forall x, x <> o -> q_contains_source q' (Some x) = q_contains_source q (Some x).
+Proof. exact eq_remove_source_removes. Qed.
+Theorem T_eq_remove_source_refuses : forall q o, q_contains_source q (Some o) = false -> q_remove_source q o = None.
+Proof. exact eq_remove_source_refuses. Qed.
 Theorem T_eq_enqueue_if_source_belongs : forall q sg src,
   t_eq_enqueue_if_source_belongs q sg src = t_ok (if q_contains_source q src then (true, q_put q sg) else (false, q)).
 Proof. exact eq_enqueue_if_source_belongs_eq. Qed.
@@ -253,6 +266,10 @@ Print Assumptions T_eq_put.
 Print Assumptions T_eq_enqueue.
 Print Assumptions T_eq_contains_source.
 Print Assumptions T_eq_add_source.
+Print Assumptions T_eq_remove_source.
+Print Assumptions T_eq_remove_source_keeps_pending.
+Print Assumptions T_eq_remove_source_removes.
+Print Assumptions T_eq_remove_source_refuses.
 Print Assumptions T_eq_enqueue_if_source_belongs.
 Print Assumptions T_ml_enqueue_loop.
 Print Assumptions T_ml_enqueue_signal.
